@@ -49,6 +49,15 @@ pub fn io_copy_unreachable<R: ?Sized + io::Read, W: ?Sized + io::Write>(_r: &mut
     Err(io::Error::from(io::ErrorKind::Other))
 }
 
+/// replaces RandomState::new (std HashMap hashing keys): fixed keys, so that hashing of the concrete
+/// chromosome names stays concrete. The written bytes must not depend on the keys (ids decide the order);
+/// that independence is a stated assumption of the harnesses that use this stub.
+pub fn fixed_random_state() -> std::collections::hash_map::RandomState {
+    let keys: [u64; 2] = [0x0123_4567_89ab_cdef, 0x0fed_cba9_8765_4321];
+    kani::assert(core::mem::size_of::<std::collections::hash_map::RandomState>() == 16, "[env] RandomState layout");
+    unsafe { core::mem::transmute_copy::<[u64; 2], std::collections::hash_map::RandomState>(&keys) }
+}
+
 /// poll a future once with a no-op waker (the bigtools encode/process futures have no real
 /// suspension point once the channel is always ready)
 pub fn poll_once<F: Future>(f: F) -> Option<F::Output> {
